@@ -949,6 +949,10 @@ class Run:
         self.wrapped(["commit", "-q", "--amend", "--no-edit"])
         self._register_new_commits("amend")
 
+    def act_AmendStaged(self, act):
+        self.wrapped(["commit", "-q", "--amend", "--no-edit"])
+        self._register_new_commits("amend")
+
     def act_MergeSquash(self, act):
         p = self.wrapped(["merge", "-q", "--squash", self._other()])
         if p.returncode != 0:
